@@ -146,6 +146,12 @@ def same_up_to_ties(a, b, ivs, masses):
     return oracle(ivs, masses, a) is None and oracle(ivs, masses, b) is None
 
 
+def tie_crossing(out, tag):
+    """the conversion refuses because the two endpoint look-ups fell on different sides of a grid level hit within rounding (finding O26);
+    only possible for masses built to hit grid levels"""
+    return out[0] == "exc" and "exceeds the right bound" in out[2] and tag[1] == "grid"
+
+
 def body(chk):
     from pyuncertainnumber.pba.pbox_abc import Staircase
     pbx.patch_fast_moments()
@@ -164,6 +170,9 @@ def body(chk):
         site = f"{route}:{tag[0]}:{tag[1]}"
         why = oracle(ivs, masses, o)
         rep = {"kind": "oracle", "intervals": ivs, "masses": masses, "route": route}
+        if tie_crossing(o, tag):
+            chk.report("ds:float-tie-crossing", f"{route} raises: {o[2]}", rep)
+            continue
         if why:
             chk.report(site, why, rep)
             continue
@@ -172,7 +181,9 @@ def body(chk):
         rng.shuffle(perm)
         o2 = run_stack([ivs[j] for j in perm], None if masses is None else [masses[j] for j in perm], route)
         chk.count("permuted", nontrivial=False)
-        if not same_up_to_ties(o, o2, ivs, masses):
+        if tie_crossing(o2, tag):
+            chk.report("ds:float-tie-crossing", f"{route} of the permuted structure raises: {o2[2]}", dict(rep, permutation=perm))
+        elif not same_up_to_ties(o, o2, ivs, masses):
             chk.report(site + ":permutation", "result depends on the order in which focal elements are listed", dict(rep, permutation=perm))
         # splitting a focal element into copies sharing its mass
         j = rng.randrange(len(ivs))
@@ -182,7 +193,9 @@ def body(chk):
         mm3 = mm[:j] + [half] + mm[j + 1:] + [mm[j] - half]
         o3 = run_stack(ivs3, mm3, route)
         chk.count("split", nontrivial=False)
-        if not same_up_to_ties(o, o3, ivs, mm) or (o3[0] == "ok" and oracle(ivs, mm, o3) is not None):
+        if tie_crossing(o3, tag):
+            chk.report("ds:float-tie-crossing", f"{route} of the structure with a split focal element raises: {o3[2]}", dict(rep, split_index=j))
+        elif not same_up_to_ties(o, o3, ivs, mm) or (o3[0] == "ok" and oracle(ivs, mm, o3) is not None):
             chk.report(site + ":split", "result changes when a focal element is split into two copies sharing its mass", dict(rep, split_index=j))
     # masses that hit a grid level exactly (no float addition involved: the first cumulated mass IS the grid value):
     # "the smallest endpoint whose cumulated mass REACHES that level" - at the level itself the first focal element still answers
@@ -201,6 +214,15 @@ def body(chk):
                 chk.report(f"{route}:exact-grid-hit", f"focal element [1,2] has mass exactly the grid level {g[k]!r} (index {k}): the bounds at that level must be [1,2] "
                            f"(its cumulated mass reaches the level) and [3,5] at the next level; got [{o[1][k]},{o[2][k]}] and "
                            f"[{o[1][min(k + 1, len(g) - 1)]},{o[2][min(k + 1, len(g) - 1)]}]", rep)
+    # witness of the open finding O26
+    from pyuncertainnumber.pba.aggregation import stochastic_mixture
+    chk.count("witness-O26", key="O26")
+    try:
+        stochastic_mixture([-3.375, -1.6875], [-4.0, -2.6875], [2.1875, 3.5625], [-3.9375, -1.1875], [-3.9375, -1.1875],
+                           weights=[0.060180904522613154, 0.24172361809045226, 0.4222663316582914, 0.13791457286432157, 0.13791457286432157])
+    except ValueError as e:
+        if "exceeds the right bound" in str(e):
+            chk.report("ds:float-tie-crossing", f"mixture raises: ValueError: {str(e)[:80]}", {"kind": "witness"})
     # round trip p-box -> DS structure -> p-box
     for k in range(6 if chk.tier == "quick" else 60):
         kind = (pbx.KINDS + pbx.TOUCH)[k % (len(pbx.KINDS) + len(pbx.TOUCH))]
